@@ -91,7 +91,7 @@ class KeyHandler(HTMLHandlerBase):
         if kpk:
             model = models.Key.get(pk=kpk)
             if model is None:
-                return flask.response(f'Unknown key {kpk}', 404)
+                return flask.make_response(f'Unknown key {kpk}', 404)
 
         if model is None:
             model = models.Key()
@@ -105,6 +105,9 @@ class KeyHandler(HTMLHandlerBase):
             return self.get(kpk)
         model.computed = flask.request.form.get('computed', 'off') == 'on'
         if new_key:
+            if models.Key.get(hkid=model.hkid) is not None:
+                flask.flash(f'Key {model.hkid} already exists', 'error')
+                return flask.make_response(f'Key {model.hkid} already exists', 400)
             model.add()
         models.db.session.commit()
         flask.flash(f'Saved changes to keypair {model.hkid}', 'success')
